@@ -164,6 +164,7 @@ func (p *Program) VerifyFunc(fi *FuncInfo) (res *FuncResult) {
 	e.prepareBody(fi.Pkg.TypesInfo, fi.Decl.Body)
 	e.computeTaint(fi)
 	e.computeBorrowed(fi)
+	e.loopVarAddressObligations(fi)
 	e.keepVar = map[types.Object]bool{}
 	for _, cl := range append(append([]*Clause{}, c.Ensures...), c.Aux...) {
 		ast.Inspect(cl.Expr, func(n ast.Node) bool {
